@@ -147,6 +147,7 @@ pub const ALL_GATES: &[&str] = &[
     "ddl.create.applied",
     "rd.open",
     "rd.batch",
+    "scan.batch",
 ];
 
 impl Case {
